@@ -1,5 +1,5 @@
 (* Props/C18.v — Growing one structure never corrupts another.  Statements, `exact`, Print Assumptions. *)
-From NDB Require Import Store.Pager Store.IdMap Store.IdMap_proofs.
+From NDB Require Import Store.Pager Store.IdMap Store.IdMap_proofs Store.Owners Store.Owners_proofs.
 Open Scope N_scope.
 
 (* for every sequence of allocate/free/ensure calls from a well-formed pager state: a page is handed out only
@@ -57,3 +57,20 @@ Definition C18_monitor_clean_statement : Prop :=
 Theorem C18_monitor_clean : C18_monitor_clean_statement.
 Proof. exact monitor_clean. Qed.
 Print Assumptions C18_monitor_clean.
+
+(* history level: arbitrary sequences of (allocate by structure X, write by X of a page it holds, free by X of a
+   page it holds, node append).  The tolerant monitor finds no violation other than spills, and exactly as many
+   spills as node appends whose record page (start + n / records_per_page) is held by another structure *)
+Definition C18_history_monitor_exact_statement : Prop :=
+  forall cs, monitor no_owner (start_of (strace sstate_new cs)) 0 (strace sstate_new cs) = (spills sstate_new cs, None).
+Theorem C18_history_monitor_exact : C18_history_monitor_exact_statement.
+Proof. exact history_monitor_exact. Qed.
+Print Assumptions C18_history_monitor_exact.
+
+(* conditional theorem: outside K-C18-spill every write and free of every structure goes to a page that
+   structure holds, and no page is ever given to two holders *)
+Definition C18_history_conditional_statement : Prop :=
+  forall cs, spills sstate_new cs = 0 -> check_trace no_owner (strace sstate_new cs) = true.
+Theorem C18_history_conditional : C18_history_conditional_statement.
+Proof. exact history_conditional. Qed.
+Print Assumptions C18_history_conditional.
